@@ -47,7 +47,7 @@ def cases_for(res, rng):
         cases.append((K, t, 'text' if i % 4 == 0 else 'obj'))
     # scale: very long chains and rings (depth of the reachability / SCC traversals)
     from common import KS
-    for n in ((700,) if quick else (700, 2000)):
+    for n in ((1100,) if quick else (1100, 2500)):
         chain = KS([[i + 1] for i in range(n - 1)] + [[n - 1]], [['p'] if i < n - 3 else ['q'] for i in range(n)])
         ring = KS([[(i + 1) % n] for i in range(n)], [['p'] if i % 7 else ['p', 'q'] for i in range(n)])
         for K in (chain, ring):
